@@ -8,33 +8,29 @@ From WP Require Import Spec.Cbor Spec.Bundle.
 From WP Require Import Proofs.BaseLemmas Proofs.CborHead Proofs.CborMap Proofs.CborDecode Proofs.CborUtf8
   Proofs.Variants Proofs.BundleWriteBasics Proofs.BundleWriteSpec Proofs.BundleWriteSig
   Proofs.BundleWriteForm Proofs.BundleWriteWF Proofs.BundleWriteCases Proofs.BundleRoundtripRows
-  Proofs.BundleRoundtripResp Proofs.BundleRoundtripMeta Proofs.BundleRoundtripRead
+  Proofs.BundleRoundtripResp Proofs.BundleWriteOk Proofs.BundleRoundtripMeta Proofs.BundleRoundtripRead
   Proofs.BundleRoundtripSig Proofs.BundleRoundtrip Proofs.BundleRoundtripNorm.
 Open Scope N_scope.
 
-Lemma nodupb_complete (l : list bytes) : NoDup l -> nodupb l = true.
+Lemma canon_go_ascii (s : bytes) : forall up,
+  is_ascii_b s = true -> is_ascii_b (canon_go s up) = true.
 Proof.
-  induction 1 as [|x t Hx _ IH]; [reflexivity|]. cbn [nodupb]. rewrite IH, andb_true_r.
-  apply negb_true_iff. apply not_true_is_false. intros E. apply existsb_bytes_In in E. contradiction.
-Qed.
-
-Lemma canon_go_tchar (s : bytes) : forall up,
-  forallb is_tchar s = true -> forallb is_tchar (canon_go s up) = true.
-Proof.
-  induction s as [|c r IH]; intros up H; [reflexivity|]. cbn [forallb canon_go] in *.
+  unfold is_ascii_b. induction s as [|c r IH]; intros up H; [reflexivity|]. cbn [forallb canon_go] in *.
   apply andb_true_iff in H. destruct H as [Hc Hr]. rewrite (IH _ Hr), andb_true_r.
-  unfold is_tchar, is_digit_b, is_lower_b, is_upper_b in *. cbn [existsb] in *.
-  destruct up; cbn [andb negb];
+  unfold is_lower_b, is_upper_b. destruct up; cbn [andb negb];
     repeat match goal with |- context [if ?b then _ else _] => destruct b eqn:? end; lia.
 Qed.
 
-Lemma name_ok_canonical (n : bytes) : name_ok n = true -> name_ok (canonical_key (lower n)) = true.
+Lemma canonical_key_ascii (s : bytes) : is_ascii_b s = true -> is_ascii_b (canonical_key s) = true.
+Proof. intros H. unfold canonical_key. destruct (forallb is_tchar s); [apply canon_go_ascii; exact H|exact H]. Qed.
+
+Lemma canonical_key_not_pseudo (s : bytes) : pseudo_name s = false -> pseudo_name (canonical_key s) = false.
 Proof.
-  intros H. apply name_ok_tchars in H. destruct H as [Hne Ht].
-  pose proof (forallb_tchar_lower n Ht) as Hl. unfold canonical_key. rewrite Hl.
-  unfold name_ok. destruct n as [|c r]; [contradiction|]. cbn [lower map canon_go].
-  change (lower_byte c :: map lower_byte r) with (lower (c :: r)) in *.
-  pose proof (canon_go_tchar (lower (c :: r)) true Hl) as G. cbn [lower map canon_go] in G. exact G.
+  intros H. unfold canonical_key. destruct (forallb is_tchar s) eqn:T; [|exact H].
+  destruct s as [|c r]; [reflexivity|]. cbn [canon_go pseudo_name andb negb] in *.
+  cbn [forallb] in T. apply andb_true_iff in T. destruct T as [Tc _].
+  unfold is_tchar, is_digit_b, is_lower_b, is_upper_b in *. cbn [existsb] in Tc.
+  repeat match goal with |- context [if ?b then _ else _] => destruct b eqn:? end; lia.
 Qed.
 
 Section X.
@@ -96,9 +92,12 @@ Section X.
     unfold norm_hdr. fold L. apply andb_true_iff. split.
     - apply forallb_forall. intros nv Hnv. apply in_map_iff in Hnv. destruct Hnv as [f [E Hf]]. subst nv.
       apply (Permutation_in _ L_perm) in Hf. apply in_map_iff in Hf. destruct Hf as [[n vs] [E Hin]]. subst f.
-      pose proof (xw_hdrs x W) as Hh. fold h in Hh. rewrite Forall_forall in Hh. destruct (Hh _ Hin) as [Hn Hv].
-      cbn [fst snd] in *. unfold hdr_ok, hdr_of, fold_hdr. cbn [fst snd forallb].
-      rewrite (name_ok_canonical n Hn), (join_comma_ascii vs Hv). reflexivity.
+      pose proof (xw_hdrs x W) as Hh. fold h in Hh. rewrite Forall_forall in Hh.
+      destruct (hdr_writable_parts _ (Hh _ Hin)) as [Hp [Hn Hv]]. cbn [fst snd] in *.
+      unfold hdr_writable_b, hdr_of, fold_hdr. cbn [fst snd join_comma].
+      rewrite (match58 (canonical_key (lower n)) true false).
+      rewrite (canonical_key_not_pseudo _ (lower_not_pseudo _ Hp)).
+      rewrite (canonical_key_ascii _ (lower_ascii _ Hn)), Hv. reflexivity.
     - apply nodupb_complete. rewrite map_map.
       assert (E : map (fun f => lower (fst (hdr_of f))) L = map fst L).
       { apply map_ext_in. intros f Hf. unfold hdr_of. cbn [fst]. rewrite lower_canonical_key. apply L_lower. exact Hf. }
@@ -121,11 +120,11 @@ Section Cycle.
     rewrite <- (map_map bx_url text_item). apply NoDup_map_inj; [apply text_item_inj|exact ND].
   Qed.
 
-  Theorem norm_idempotent_single (b : bundle) :
-    writable x509_ok b = true -> single_urls b -> norm (norm b) = norm b.
+  Theorem norm_idempotent_single (b : bundle) (bs : bytes) :
+    b_write b = Ok bs -> single_urls b -> norm (norm b) = norm b.
   Proof.
-    intros W ND. pose proof (writable_urls_utf8 x509_ok b W) as U.
-    destruct (writable_parts x509_ok b W) as [_ [X _]].
+    intros W ND. pose proof (written_urls_utf8 b bs W) as U.
+    pose proof (b_write_ok_xwritable b bs W) as X.
     assert (E1 : b_exchanges (norm b) = map xnorm (isort x_ltb (b_exchanges b))) by (apply norm_single; assumption).
     assert (ND' : single_urls (norm b)).
     { unfold single_urls. rewrite E1, map_map. cbn [xnorm bx_url].
@@ -139,37 +138,20 @@ Section Cycle.
       { rewrite <- (isort_map xnorm x_ltb). change (fun a c => x_ltb (xnorm a) (xnorm c)) with x_ltb.
         f_equal. apply (isort_sorted_id (fun a => text_item (bx_url a))). apply sorted_urls_strict. exact ND. }
       rewrite Es, map_map. apply map_ext_in. intros x Hx. apply xnorm_idem.
-      unfold xs_ok in X. rewrite Forall_forall in X. apply X. apply (Permutation_in _ (isort_perm x_ltb (b_exchanges b))). exact Hx. }
+      rewrite Forall_forall in X. apply X. apply (Permutation_in _ (isort_perm x_ltb (b_exchanges b))). exact Hx. }
     unfold norm at 1. cbn [b_ver b_primary b_manifest b_sigs]. fold (b_exchanges (norm (norm b))) in *.
     unfold norm at 1 in E2. cbn [b_exchanges] in E2. cbn [b_ver] in E2. rewrite E2. reflexivity.
   Qed.
 
-  Theorem writable_norm_single (b : bundle) :
-    writable x509_ok b = true -> single_urls b -> writable x509_ok (norm b) = true.
-  Proof.
-    intros W ND. pose proof (writable_urls_utf8 x509_ok b W) as U.
-    pose proof W as W0. unfold writable in W0 |- *. cbn [norm b_taint b_ver b_primary b_manifest b_sigs].
-    apply andb_true_iff in W0. destruct W0 as [W0 H5].
-    apply andb_true_iff in W0. destruct W0 as [W0 H4].
-    apply andb_true_iff in W0. destruct W0 as [W0 H3].
-    apply andb_true_iff in W0. destruct W0 as [H1 H2].
-    rewrite H3, H4, H5, !andb_true_r. cbn [negb andb].
-    fold (b_exchanges (norm b)). rewrite (norm_single b ND U).
-    apply forallb_forall. intros y Hy. apply in_map_iff in Hy. destruct Hy as [x [E Hx]]. subst y.
-    apply (Permutation_in _ (isort_perm x_ltb (b_exchanges b))) in Hx. rewrite forallb_forall in H2. specialize (H2 x Hx).
-    apply andb_true_iff in H2. destruct H2 as [Wx Ux]. rewrite (xnorm_writable x Wx). exact Ux.
-  Qed.
-
   (* C03 fixpoint: writing what was read and reading it again gives what was read *)
   Theorem fixpoint_single (b : bundle) (bs bs2 : bytes) :
-    writable x509_ok b = true -> single_urls b ->
-    b_write b = Ok bs -> lenN bs < two63 ->
+    b_write b = Ok bs -> lenN bs < two63 -> residual x509_ok b = true -> single_urls b ->
     b_write (norm b) = Ok bs2 -> lenN bs2 < two63 ->
     b_read x509_ok bs = Ok (norm b) /\ b_read x509_ok bs2 = Ok (norm b).
   Proof.
-    intros W ND H1 L1 H2 L2. split; [apply bundle_roundtrip; assumption|].
-    replace (Ok (norm b)) with (Ok (norm (norm b))) by (rewrite (norm_idempotent_single b W ND); reflexivity).
-    apply bundle_roundtrip; [apply writable_norm_single; assumption|exact H2|exact L2].
+    intros H1 L1 W ND H2 L2. split; [apply bundle_roundtrip; assumption|].
+    replace (Ok (norm b)) with (Ok (norm (norm b))) by (rewrite (norm_idempotent_single b bs H1 ND); reflexivity).
+    apply bundle_roundtrip; [exact H2|exact L2|apply residual_norm; exact W].
   Qed.
 
   (* one write/read cycle; None if the write or the read fails *)
@@ -181,13 +163,13 @@ Section Cycle.
 
   (* from the second serialisation on the bytes never change again *)
   Theorem cycle_fixpoint (b : bundle) (bs bs2 : bytes) (n : nat) :
-    writable x509_ok b = true -> single_urls b ->
-    b_write b = Ok bs -> lenN bs < two63 -> b_write (norm b) = Ok bs2 -> lenN bs2 < two63 ->
+    b_write b = Ok bs -> lenN bs < two63 -> residual x509_ok b = true -> single_urls b ->
+    b_write (norm b) = Ok bs2 -> lenN bs2 < two63 ->
     cycle b = Some (bs, norm b) /\
     Nat.iter n (fun st => match st with Some (_, c) => cycle c | None => None end) (cycle (norm b))
     = Some (bs2, norm b).
   Proof.
-    intros W ND H1 L1 H2 L2. destruct (fixpoint_single b bs bs2 W ND H1 L1 H2 L2) as [R1 R2].
+    intros H1 L1 W ND H2 L2. destruct (fixpoint_single b bs bs2 H1 L1 W ND H2 L2) as [R1 R2].
     assert (C2 : cycle (norm b) = Some (bs2, norm b)) by (unfold cycle; rewrite H2, R2; reflexivity).
     split; [unfold cycle; rewrite H1, R1; reflexivity|].
     induction n as [|n IH]; [exact C2|].
